@@ -8,14 +8,14 @@ claim = {
  "C02": ("full statement within bounds", "DESIGN.md §4 C02"),
  "C03": ("decision kernels only (SQL range-merge predicate, chunk-arrival step, apply trigger, applier guard); atomic visibility itself is SQLite's", "DESIGN.md §4 C03"),
  "C04": ("full statement within bounds (quick: per block of the per-actor loop body + inductive de-dup step; thorough: whole function)", "DESIGN.md §4 C04"),
- "C05": ("in part: answering a partially buffered version from the buffered rows (exactly held ∩ requested), the need filter predicate, the overlap lookup predicate; Full-need path and empties detection are outside", "DESIGN.md §4 C05"),
+ "C05": ("in part: answering a partially buffered version from the buffered rows (exactly held ∩ requested), empties detection for versions without live rows, the need filter predicate, the SQL range / overlap predicates, one read transaction per need; the Full arm's main query over crsql_changes is outside", "DESIGN.md §4 C05"),
  "C08": ("full statement within bounds", "DESIGN.md §4 C08"),
  "C09": ("decode totality, round trips and key layout within size bounds; byte-compatibility with the binary extension only through its documented layout", "DESIGN.md §4 C09"),
  "C10": ("safety invariant J + one-step progress lemma of the ingest step (quick: its three cache operations separately; thorough: the composed step)", "DESIGN.md §4 C10"),
  "C12": ("client gap detection and resume point; server hand-over reconciliation with race outcomes as symbolic inputs; the forwarder's stop-on-lag rule", "DESIGN.md §4 C12"),
  "C14": ("causal-length cache and notification parity (inductive lemmas); candidate selection is outside", "DESIGN.md §4 C14"),
  "C16": ("the four cluster-id decision sites and the wire default", "DESIGN.md §4 C16"),
- "C17": ("middleware decision only; route coverage and read-only enforcement are outside", "DESIGN.md §4 C17"),
+ "C17": ("the middleware decision (token) and the read-only wiring of the query endpoint (pool open flags, the connection a submitted statement is prepared on); route coverage, SQLite's own refusal of writes on a read-only handle and the subscription endpoint's single-SELECT parse are outside", "DESIGN.md §4 C17"),
  "C18": ("full statement within bounds", "DESIGN.md §4 C18"),
 }
 na_reasons = {
